@@ -637,6 +637,7 @@ nodesLoop:
 			terminating := true
 			var positionOfDefault *ast.Position
 			for _, cas := range node.Cases {
+				tc.scopes.Enter(cas) // each clause is an implicit block
 				switch comm := cas.Comm.(type) {
 				case nil:
 					if positionOfDefault != nil {
@@ -660,6 +661,7 @@ nodesLoop:
 					_ = tc.checkNodes([]ast.Node{comm})
 				}
 				cas.Body = tc.checkNodesInNewScope(node, cas.Body)
+				tc.scopes.Exit()
 				terminating = terminating && tc.terminating
 			}
 			tc.removeLastAncestor()
